@@ -162,6 +162,9 @@ class Run:
             return Stream(asynchronous=True) if asyn else Stream()
         if k == "union":
             return ups[0].union(*ups[1:])
+        if k == "plain":
+            # a plain Stream built through the class over an upstream: Stream.update, the base-class pass-through
+            return Stream(upstream=ups[0])
         if k == "map":
             fn, a, kw = with_form(mk(nd["f"]))
             return ups[0].map(fn, *a, **kw)
@@ -207,6 +210,8 @@ class Run:
             args = list(ups)
             for pos, val in nd.get("literals", []):
                 args.insert(pos, decanon(val))
+            if nd.get("maxsize_default"):
+                return self.streamz.zip(*args)      # the default maxsize (10): without a loop nobody waits, nothing may be dropped
             return self.streamz.zip(*args, maxsize=ZIP_MAXSIZE)
         if k == "combine_latest":
             kw = {}
